@@ -5,6 +5,7 @@ import (
 	"errors"
 	"fmt"
 	"io"
+	"strconv"
 	"strings"
 
 	"github.com/freeconf/yang/node"
@@ -47,11 +48,57 @@ func (self *JSONRdr) Node() (node.Node, error) {
 func (self *JSONRdr) decode() (map[string]interface{}, error) {
 	if self.values == nil {
 		d := json.NewDecoder(self.In)
+		// numbers are decoded from their literal so that 64-bit integers survive (a float64 holds
+		// only 53 bits); everything a float64 holds exactly is still handed on as float64
+		d.UseNumber()
 		if err := d.Decode(&self.values); err != nil {
 			return nil, err
 		}
+		var numErr error
+		exactNumbers(self.values, &numErr)
+		if numErr != nil {
+			self.values = nil
+			return nil, numErr
+		}
 	}
 	return self.values, nil
+}
+
+// exactNumbers replaces every json.Number of a decoded document: by the float64 it denotes when
+// that conversion is exact (or the literal is not an integer), otherwise by the int64/uint64 it spells.
+func exactNumbers(v interface{}, errp *error) interface{} {
+	switch x := v.(type) {
+	case json.Number:
+		lit := string(x)
+		if !strings.ContainsAny(lit, ".eE") {
+			if i, err := strconv.ParseInt(lit, 10, 64); err == nil {
+				if f := float64(i); f > -9.2e18 && f < 9.2e18 && int64(f) == i {
+					return f
+				}
+				return i
+			}
+			if u, err := strconv.ParseUint(lit, 10, 64); err == nil {
+				if f := float64(u); f < 1.8e19 && uint64(f) == u {
+					return f
+				}
+				return u
+			}
+		}
+		f, err := x.Float64()
+		if err != nil && *errp == nil {
+			*errp = err // out of the float64 range, as the decoder reported before
+		}
+		return f
+	case map[string]interface{}:
+		for k, e := range x {
+			x[k] = exactNumbers(e, errp)
+		}
+	case []interface{}:
+		for i, e := range x {
+			x[i] = exactNumbers(e, errp)
+		}
+	}
+	return v
 }
 
 func leafOrLeafListJsonReader(m meta.Leafable, data interface{}) (v val.Value, err error) {
